@@ -150,6 +150,11 @@ def build_inputs(case):
         t[i] = v
     for i, v in case["nonfinite"]["rv"]:
         rv[i] = v
+    if case["seed"] % 4 == 1 and not case["cov"]:
+        # single-precision velocities (survey catalogue columns) with double-precision times that single precision cannot hold (an
+        # extra 2^-12 day, 21 s): the times are stored as given.  (The uncertainties stay double: 1/err^2 of a float32 is a float32.)
+        rv = rv.astype(np.float32)
+        t = t + 2.0**-12
     unit = u.Unit(case["unit"])
     eunit = u.Unit(case.get("err_unit") or case["unit"])  # the uncertainties keep the unit they were given in
     n = len(t)
